@@ -226,6 +226,9 @@ def _wait_blocked_or_done(t: threading.Thread, func_names: Tuple[str, ...], done
     raise E.HarnessError("thread B neither finished nor reached the build lock")
 
 
+LONG_PAUSE_S = 6.5
+
+
 def _run_build(cfg: TCfg, c: Ctx) -> Any:
     from tawazi import Resource, cfg as twz_cfg, dag, xn
     from tawazi.errors import TawaziBaseException
@@ -359,6 +362,10 @@ def _run_build(cfg: TCfg, c: Ctx) -> Any:
         tb = tb_box[0]
     b_go.set()
     status = _wait_blocked_or_done(tb, ("threadsafe_make_dag",), lambda: "b" in out)
+    if op == "build" and relation == "independent" and pause_at == 1 and not nested_a and not b_failed_before and c.choose(2, "long_pause"):
+        # the first build stays in its describing function for a while (an import, a download): the second one simply waits
+        time.sleep(LONG_PAUSE_S)
+        c.cover("w_long_pause")
     resume.set()
     ta.join(20)
     tb.join(20)
